@@ -26,6 +26,16 @@ use crate::toy;
 type F<C> = <<C as frost::Ciphersuite>::Group as Group>::Field;
 type G<C> = <C as frost::Ciphersuite>::Group;
 
+thread_local! {
+    static FUZZ: std::cell::Cell<bool> = std::cell::Cell::new(false);
+}
+pub fn set_fuzz(on: bool) {
+    FUZZ.with(|f| f.set(on));
+}
+fn fuzz_enabled() -> bool {
+    FUZZ.with(|f| f.get())
+}
+
 pub fn crc32(data: &[u8]) -> u32 {
     let mut crc = 0xffff_ffffu32;
     for b in data {
@@ -293,6 +303,50 @@ where
                 b[1..5].copy_from_slice(&crc32(id.as_bytes()).to_be_bytes());
                 emit(out, "suite_id", &b);
             }
+        }
+    }
+    // structure-aware mutations (C14): each position x boundary values, insertions, deletions,
+    // inflated length prefixes; the only law for these is "returns a value or an error"
+    if fuzz_enabled() {
+        for i in 0..bytes.len() {
+            for v in [0x00u8, 0x01, 0x7f, 0x80, 0xff, bytes[i] ^ 1, bytes[i].wrapping_add(1)] {
+                if v != bytes[i] {
+                    let mut b = bytes.clone();
+                    b[i] = v;
+                    emit(out, "mutated", &b);
+                }
+            }
+            let mut b = bytes.clone();
+            b.remove(i);
+            emit(out, "mutated", &b);
+            let mut b = bytes.clone();
+            b.insert(i, 0xff);
+            emit(out, "mutated", &b);
+            // a varint of 2^32-1 / 2^64-1 spliced in where a count or length may sit
+            let mut b = bytes[..i].to_vec();
+            b.extend_from_slice(&[0xff, 0xff, 0xff, 0xff, 0x0f]);
+            b.extend_from_slice(&bytes[i..]);
+            emit(out, "mutated", &b);
+            let mut b = bytes[..i].to_vec();
+            b.extend_from_slice(&[0xff; 9]);
+            b.push(0x01);
+            b.extend_from_slice(&bytes[i + 1..]);
+            emit(out, "mutated", &b);
+        }
+        let mut x = crate::main_fnv(bytes.as_slice());
+        for k in 0..64usize {
+            let len = (k * 7) % (bytes.len() + 9);
+            let mut b = vec![0u8; len];
+            for y in b.iter_mut() {
+                x ^= x << 13;
+                x ^= x >> 7;
+                x ^= x << 17;
+                *y = (x >> 24) as u8;
+            }
+            if len >= 5 && k % 2 == 0 {
+                b[..5].copy_from_slice(&bytes[..5]); // keep a valid header so that the body is reached
+            }
+            emit(out, "mutated", &b);
         }
     }
     // truncations never decode to something that re-encodes to the original
